@@ -442,4 +442,165 @@ theorem lab_ofOuts (chars : ValidChars) (outs : List NodeOut) (wf : WF chars out
   rw [List.getElem?_eq_getElem (by simpa using hidx)] at this
   exact Option.some.inj this
 
+/-! ### the label scan and the walk -/
+
+theorem idxOf_first : ∀ (l : List Nat) (c k : Nat) (hk : k < l.length), l[k] = c →
+    (∀ j, j < k → l[j]? ≠ some c) → l.idxOf c = k
+  | [], _, _, hk, _, _ => by simp at hk
+  | a :: l, c, 0, _, h0, _ => by simp at h0; simp [List.idxOf_cons, h0]
+  | a :: l, c, k + 1, hk, hkc, hb => by
+    have ha : a ≠ c := by
+      intro e; exact hb 0 (by omega) (by simp [e])
+    have hb' : (a == c) = false := by simp [ha]
+    rw [List.idxOf_cons, hb']
+    simp only [Bool.false_eq_true, ↓reduceIte, Nat.add_right_cancel_iff]
+    apply idxOf_first l c k (by simpa using hk) (by simpa using hkc)
+    intro j hj
+    have := hb (j + 1) (by omega)
+    simpa using this
+
+theorem not_mem_of_all_ne (l : List Nat) (c : Nat) (h : ∀ j, j < l.length → l[j]? ≠ some c) : c ∉ l := by
+  intro hm
+  obtain ⟨j, hj, rfl⟩ := List.getElem_of_mem hm
+  exact h j hj (List.getElem?_eq_getElem hj)
+
+theorem scan_spec (chars : ValidChars) (outs : List NodeOut) (wf : WF chars outs) (h0 : 0 < chars.size)
+    (h256 : chars.size ≤ 256) (n : Nat) (o : NodeOut) (ho : outs[n]? = some o) (c : Nat)
+    (hc : chars.isValid c = true) :
+    ∀ (d k fuel : Nat), d = o.labels.length - k → k ≤ o.labels.length →
+      (∀ j, j < k → o.labels[j]? ≠ some c) → d + 1 ≤ fuel →
+      scanLabels (Trie.ofOuts chars outs) fuel n (start outs n + k) (chars.code c) =
+        some (if c ∈ o.labels then some (start outs n + o.labels.idxOf c) else none) := by
+  have hn : n < outs.length := by
+    rcases Nat.lt_or_ge n outs.length with h | h
+    · exact h
+    · rw [List.getElem?_eq_none h] at ho; simp at ho
+  obtain ⟨s1, s2, _⟩ := segment outs n o ho
+  have hterm : start outs n + o.labels.length < (bitmapBits outs).length := by
+    have := start_le outs (n + 1) (by omega)
+    rw [start_succ outs n o ho] at this; omega
+  intro d
+  induction d with
+  | zero =>
+    intro k fuel hd hk hb hf
+    have hk' : k = o.labels.length := by omega
+    subst hk'
+    cases fuel with
+    | zero => omega
+    | succ fuel =>
+      unfold scanLabels
+      rw [getBit_bitmap chars outs _ hterm, s2]
+      have : c ∉ o.labels := not_mem_of_all_ne _ _ hb
+      simp [this]
+  | succ d ih =>
+    intro k fuel hd hk hb hf
+    have hk' : k < o.labels.length := by omega
+    cases fuel with
+    | zero => omega
+    | succ fuel =>
+      unfold scanLabels
+      rw [getBit_bitmap chars outs _ (by omega), s1 k hk']
+      simp only [Option.bind_eq_bind, Option.bind_some, Bool.false_eq_true, ↓reduceIte]
+      have hidx : start outs n + k - n = degs (outs.take n) + k := by unfold start; omega
+      rw [hidx, lab_ofOuts chars outs wf h0 n o ho k hk']
+      simp only [Option.bind_some]
+      have hlv : chars.isValid o.labels[k] = true :=
+        wf.labels o (List.mem_of_getElem? ho) _ (List.getElem_mem hk')
+      have hlt : chars.code o.labels[k] < 256 := by
+        have := code_lt chars _ hlv; unfold ValidChars.size at h256; omega
+      rw [Nat.mod_eq_of_lt hlt]
+      by_cases heq : chars.code o.labels[k] = chars.code c
+      · rw [if_pos heq]
+        have hlc : o.labels[k] = c := code_inj chars _ _ hlv hc heq
+        have hidx := idxOf_first o.labels c k hk' hlc hb
+        have hm : c ∈ o.labels := by rw [← hlc]; exact List.getElem_mem hk'
+        simp [hm, hidx]
+      · rw [if_neg heq]
+        have := ih (k + 1) fuel (by omega) (by omega) (by
+          intro j hj
+          by_cases e : j = k
+          · subst e
+            rw [List.getElem?_eq_getElem hk']
+            intro h; apply heq; rw [Option.some.inj h]
+          · exact hb j (by omega)) (by omega)
+        rw [show start outs n + (k + 1) = start outs n + k + 1 by omega] at this
+        exact this
+
+theorem degs_take_succ_le (outs : List NodeOut) (n : Nat) (o : NodeOut) (ho : outs[n]? = some o) :
+    degs (outs.take n) + o.labels.length ≤ degs outs := by
+  have h1 : degs (outs.take (n + 1)) = degs (outs.take n) + o.labels.length := by
+    rw [List.take_succ, ho]; simp [degs_append, degs]
+  have h2 : degs outs = degs (outs.take (n + 1)) + degs (outs.drop (n + 1)) := by
+    rw [← degs_append, List.take_append_drop]
+  omega
+
+/-- **The packed trie walks like the flat BFS list.** -/
+theorem walk_eq_flat (chars : ValidChars) (outs : List NodeOut) (wf : WF chars outs) (h0 : 0 < chars.size)
+    (h256 : chars.size ≤ 256) : ∀ (w : Str) (n : Nat), n < outs.length →
+      (Trie.ofOuts chars outs).walk w n (start outs n) = some (walkFlat outs w n) := by
+  intro w
+  induction w with
+  | nil =>
+    intro n hn
+    have ho : outs[n]? = some outs[n] := List.getElem?_eq_getElem hn
+    simp only [Trie.walk, walkFlat, ho]
+    exact getBit_leaves chars outs wf n _ ho
+  | cons c w ih =>
+    intro n hn
+    have ho : outs[n]? = some outs[n] := List.getElem?_eq_getElem hn
+    generalize outs[n] = o at ho
+    simp only [Trie.walk, walkFlat, ho]
+    rw [getBit_leaves chars outs wf n o ho]
+    simp only [Option.bind_eq_bind, Option.bind_some]
+    by_cases hleaf : o.leaf = true
+    · simp [hleaf]
+    · have hleaf' : o.leaf = false := by simpa using hleaf
+      simp only [hleaf', Bool.false_eq_true, ↓reduceIte, Bool.false_or]
+      by_cases hv : chars.isValid c = true
+      · simp only [hv, Bool.not_true, Bool.false_eq_true, ↓reduceIte]
+        have hfuel : o.labels.length - 0 + 1 ≤ (Trie.ofOuts chars outs).labelBitmap.size * 64 + 1 := by
+          have h1 := start_le outs (n + 1) (by omega)
+          rw [start_succ outs n o ho] at h1
+          have h2 := ws_cover outs
+          have : (Trie.ofOuts chars outs).labelBitmap.size = (wsOf outs).length := by
+            simp [Trie.ofOuts, wsOf]
+          rw [this]; omega
+        have hscan := scan_spec chars outs wf h0 h256 n o ho c hv (o.labels.length - 0) 0 _ rfl (Nat.zero_le _)
+          (by intro j hj; omega) hfuel
+        rw [Nat.add_zero] at hscan
+        rw [hscan]
+        simp only [Option.bind_some]
+        by_cases hm : c ∈ o.labels
+        · simp only [hm, ↓reduceIte]
+          have hk : o.labels.idxOf c < o.labels.length := List.idxOf_lt_length_iff.mpr hm
+          obtain ⟨_, _, s3⟩ := segment outs n o ho
+          have hterm : start outs n + o.labels.length < (bitmapBits outs).length := by
+            have := start_le outs (n + 1) (by omega)
+            rw [start_succ outs n o ho] at this; omega
+          have hne : outs ≠ [] := by intro h; rw [h] at hn; simp at hn
+          rw [cz_ofOuts chars outs hne _ (by omega)]
+          simp only [Option.bind_some]
+          have hones := s3 (o.labels.idxOf c + 1) (by omega)
+          rw [show start outs n + (o.labels.idxOf c + 1) = start outs n + o.labels.idxOf c + 1 by omega] at hones
+          rw [hones]
+          have hchild : start outs n + o.labels.idxOf c + 1 - n = 1 + degs (outs.take n) + o.labels.idxOf c := by
+            unfold start; omega
+          rw [hchild]
+          have hchild_lt : 1 + degs (outs.take n) + o.labels.idxOf c < outs.length := by
+            have := degs_take_succ_le outs n o ho
+            have := wf.len; omega
+          rw [sel_ofOuts chars outs wf _ (by omega) hchild_lt]
+          simp only [Option.bind_some]
+          have hst : 1 ≤ start outs (1 + degs (outs.take n) + o.labels.idxOf c) := by unfold start; omega
+          rw [show start outs (1 + degs (outs.take n) + o.labels.idxOf c) - 1 + 1 =
+            start outs (1 + degs (outs.take n) + o.labels.idxOf c) by omega]
+          exact ih _ hchild_lt
+        · simp [hm]
+      · have hv' : chars.isValid c = false := by simpa using hv
+        have hm : c ∉ o.labels := by
+          intro hm
+          rw [wf.labels o (List.mem_of_getElem? ho) c hm] at hv'
+          exact absurd hv' (by simp)
+        simp [hv', hm]
+
 end DaeVerif.C11
